@@ -634,7 +634,9 @@ def main():
             # the verifier could not decide the CHANGED tree: a concrete failing execution of the real code is still a
             # sound alarm (DESIGN 2.5 cross-check); without one the verdict stays undecided
             import replayer_run
-            found = replayer_run.search(pid, None, seed)
+            # a different seed than the exploration above (which ran the first 8 s of THIS seed's sequence already), and a
+            # longer budget: this path is only taken on a changed tree the verifier could not decide
+            found = replayer_run.search(pid, None, seed + 7919, budget_ms=int(os.environ.get('VERIF_REPLAY_BUDGET_MS', '30000')))
             if found and found.get('failing_input'):
                 v = dict(build='replayer', key='replayer', kind='concrete-counterexample', module='-', function='-',
                          message='verifier undecided on the changed tree; the replayer found an input violating the executable '
